@@ -371,6 +371,15 @@ class ExprMixin:
                     cur += '%'
                     i += 2
                     continue
+                if fmt[i + 1:i + 4] == '.3d':
+                    if cur:
+                        parts.append(z3.StringVal(cur))
+                        cur = ''
+                    v = args[ai]
+                    ai += 1
+                    parts.append(self.call_spec_or_uf('fmt_03d', [v], st).z)
+                    i += 4
+                    continue
                 if fmt[i + 1] in 'sd':
                     if cur:
                         parts.append(z3.StringVal(cur))
